@@ -54,9 +54,10 @@ PConn(b, d) == /\ conns[b] + d >= 0
                /\ reply' = NoReply
                /\ UNCHANGED <<w, avail, hist, fresh>>
 
-\* (re)load: new weights; a load point for C01
-PUpdate(nw) == /\ w' = nw /\ hist' = <<>> /\ fresh' = TRUE /\ reply' = NoReply
-               /\ UNCHANGED <<avail, conns>>
+\* (re)load: new weights (0 for backends that are not configured any more), availability and
+\* connection counts of the configured backends after the reload; a load point for C01
+PUpdate(nw, av1, cn1) == /\ w' = nw /\ hist' = <<>> /\ fresh' = TRUE /\ reply' = NoReply
+                         /\ avail' = av1 /\ conns' = cn1
 
 ------------------------------------------------------------------------
 \* Layer-P obligations
